@@ -173,6 +173,10 @@ mut("C09-budget-from-opponents-clock", "C09", "time-budget", (S, "            Co
 mut("C09-go-wtime-feeds-black-clock", "C09", "go-keyword", (UC, '"wtime" => {\n                    idx += 1;\n                    limits = limits.white_time(Some(', '"wtime" => {\n                    idx += 1;\n                    limits = limits.black_time(Some('))
 mut("C14-depth-setter-clamps", "C14", "limits-setter:depth", ("src/search/limits.rs", "        self.depth = depth;", "        self.depth = match depth { Some(d) if d > 64 => Some(64), other => other };"))
 
+
+mut("C11-futility-return-alpha", "C11", "exits", (S, "        let moves = self.board.get_all_moves();\n        let mut total_legal_moves = 0;\n\n        // A side that is completely blocked in", "        if depth == 1 && evaluator.evaluate(&mut self.board).saturating_add(300) <= alpha {\n            return alpha;\n        }\n\n        let moves = self.board.get_all_moves();\n        let mut total_legal_moves = 0;\n\n        // A side that is completely blocked in"))
+mut("C11-late-move-pruning", "C11", "no-move-skipped", (S, "            total_legal_moves += 1;\n", "            total_legal_moves += 1;\n            if total_legal_moves > 12 && depth <= 2 && !mv.is_capture() {\n                continue;\n            }\n"))
+
 # ---- seeded changes made to REFACTORED code: the rules must follow the extracted helpers and still see the breakage
 R = "selftest/refactors/"
 mut("R-C13-drop-child-guard-in-helper-form", "C13", "guard:search::Search::alpha_beta:write=insert[Lower]",
